@@ -742,6 +742,12 @@ def classify(feat, dump_feat, py, cy):
             return "int_literal_local_inferred_c_long_unchecked"
         if "del_defnull" in dump_feat and continued:
             return "lenient_del_of_definitely_unbound_is_noop"
+    if "ret1fin" in feat and "tryexc" in feat and py[0] in unbound and (
+            cy[0] in ("CRASH", "SystemError") or cy[0] not in unbound or py[2] != cy[2]):
+        # try: [try: ... return ... / finally: <may raise>] / except: <continues>  -- the exception raised inside a
+        # finally clause that was entered by 'return' reaches the outer handler, whose continuation then reads a
+        # variable that is unbound on that path only; minimal program in known_findings.json
+        return "finally_entered_by_return_raises_into_outer_handler"
     return "unbound_behaviour_differs"
 
 
